@@ -1537,3 +1537,142 @@ def oracle_c14(tables, seed, tier, deep):
 
 
 ORACLES["C14"] = oracle_c14
+
+
+# ------------------------------------------------------------------------------------------- C15
+
+def field_positions(tree, tok):
+    """where a field-name token occurs in the input: list of (path, 'key' | 'value')"""
+    out = []
+
+    def walk(t, path):
+        if isinstance(t, Obj):
+            for k, v in t:
+                if tok in k:
+                    out.append((path + (k,), "key"))
+                walk(v, path + (k,))
+        elif isinstance(t, list):
+            for i, v in enumerate(t):
+                walk(v, path + (i,))
+        elif isinstance(t, str) and tok in t:
+            out.append((path, "value"))
+    walk(tree, ())
+    return out
+
+
+def c15_site(path, how, tok):
+    parts = []
+    for p in path:
+        if isinstance(p, int):
+            continue
+        parts.append(TOK.sub(lambda m: "<" + m.group(1) + ">", p))
+    # keep the context that identifies the site: the zone key and the operator keys on the way, user names collapsed
+    return "/".join(parts[1:]) + ":" + how
+
+
+def c15_class(path, how):
+    """site signature of a C15 violation: the CALL SITE in the code it belongs to, so that a different violation is still reported"""
+    keys = [p for p in path if not isinstance(p, int)]
+    zone = keys[2] if len(keys) > 2 else ""
+    if zone == "projection":
+        return "fn:projection-document-not-walked"          # redactCommand has no dispatch for `projection`
+    if zone == "key" and len(keys) == 3:
+        return "fn:distinct-key-not-walked"                 # redactCommand has no dispatch for distinct's `key`
+    if any(k in ("$search", "$searchMeta", "$vectorSearch") for k in keys) and keys[-1] in ("path", "defaultPath"):
+        return "fn:search-path-argument-" + how             # FieldName branch of the stage walker: kept when keyPath is non-empty / generic placeholder below operator arrays
+    if keys[-1:] == ["$unset"] and isinstance(path[-1], int):
+        return "fn:field-name-array-argument-" + how        # array of names under a FieldName-typed argument goes through the array walker
+    return "fn-%s:%s" % (how, c15_site(path, how, ""))
+
+
+def oracle_c15(tables, seed, tier, deep):
+    n = 2000 if (tier == "thorough" or deep) else 260
+    rng = SplitMix(seed ^ 0xC15)
+    cases = [cs for cs in grammar_cases(seed ^ 15, n) if cs.fields and isinstance(get_path(cs.tree, ("attr", "ns")), str)]
+    viol, dist = [], collections.Counter()
+    pairs_on, pairs_off, pairs_other = [], [], []
+    for i, cs in enumerate(cases):
+        ns = get_path(cs.tree, ("attr", "ns"))
+        db = ns.split(".")[0]
+        pref = [db, ns, db[: max(1, len(db) // 2)]][i % 3]
+        base = [Cfg(), Cfg(n=True, b=True), Cfg(repl="X"), Cfg(i=True)][i % 4]
+        pairs_on.append((cs, Cfg(base.repl, base.n, base.b, base.i, False, (pref,), None, 0)))
+        pairs_off.append((cs, base))
+        pairs_other.append((cs, Cfg(base.repl, base.n, base.b, base.i, False, ("zq_other_db." + pref, pref + "zq_longer_than_ns"), None, 0)))
+    r_on, r_off, r_other = run_lines(pairs_on), run_lines(pairs_off), run_lines(pairs_other)
+    names_checked = 0
+    for (cs, c1), (_, c0), (_, c2), a, b, o in zip(pairs_on, pairs_off, pairs_other, r_on, r_off, r_other):
+        if has_dups(cs.tree):
+            continue
+        ta, tb, to = out_text(a), out_text(b), out_text(o)
+        dist["lines"] += 1
+        # lines of other namespaces: exactly as without the flag
+        if to != tb:
+            viol.append({"site": "fn:other-namespace", "detail": "a --redactFieldNames path that is not a prefix of attr.ns changed the line", "cfg": c2.s(), "cli_flags": c2.cli(), "input": cs.text, "output": to, "output_off": tb})
+        if ta is None:
+            viol.append({"site": "fn:noline", "detail": "no output", "cfg": c1.s(), "cli_flags": c1.cli(), "input": cs.text})
+            continue
+        try:
+            oa, ob = parse_json(ta), parse_json(tb)
+        except Exception as e:
+            viol.append({"site": "fn:badjson", "detail": str(e), "cfg": c1.s(), "input": cs.text, "output": ta})
+            continue
+        # completeness: no user field name of the zones remains anywhere in the line
+        for tok, role in cs.roles.items():
+            if role != "F":
+                continue
+            names_checked += 1
+            if tok in ta:
+                pos = field_positions(cs.tree, tok)
+                outpos = field_positions(oa, tok)
+                where = outpos[0] if outpos else (pos[0] if pos else ((), "?"))
+                viol.append({"site": c15_class(where[0], "leak"), "detail": "field name %r remains in the line (%s at %s)" % (tok, where[1], "/".join(str(x) for x in where[0])),
+                             "cfg": c1.s(), "cli_flags": c1.cli(), "input": cs.text, "output": ta})
+        # consistency: the same name -> the same pseudonym = independent_pseudonym(name); sibling count / order kept; values as without the flag
+        def cmp(x, y, inp, path):
+            kx, ky = kind(x), kind(y)
+            if kx != ky:
+                return [(path, "kind %s vs %s" % (kx, ky))]
+            if kx == "obj":
+                if len(x) != len(y):
+                    return [(path, "sibling count %d vs %d" % (len(x), len(y)))]
+                out = []
+                ok = isinstance(inp, Obj) and len(inp) == len(x)
+                for i, ((k0, v0), (k1, v1)) in enumerate(zip(x, y)):
+                    if k1 != k0 and k1 != py_hash_name(c1.repl, k0):
+                        out.append((path + (k0,), "key %r renamed to %r, expected %r" % (k0, k1, py_hash_name(c1.repl, k0))))
+                    out += cmp(v0, v1, inp[i][1] if ok else None, path + (k0,))
+                return out
+            if kx == "arr":
+                if len(x) != len(y):
+                    return [(path, "length")]
+                out = []
+                ok = isinstance(inp, list) and not isinstance(inp, Obj) and len(inp) == len(x)
+                for i, (v0, v1) in enumerate(zip(x, y)):
+                    out += cmp(v0, v1, inp[i] if ok else None, path + (i,))
+                return out
+            if kx == "str" and x != y:
+                # allowed: the INPUT string at this position (a '$field' reference, or a field name given as a plain value:
+                # $unset, $count, path arguments ...) became its pseudonym; anything else must be as without the flag
+                if not (isinstance(inp, str) and y == py_hash_name(c1.repl, inp)) and path[-1:] != ("planSummary",):
+                    return [(path, "input %r: without the flag %r, with the flag %r" % (inp if not isinstance(inp, str) else inp[:60], x[:60], y[:60]))]
+            elif kx in ("num", "bool") and str(x) != str(y):
+                return [(path, "value %r vs %r" % (x, y))]
+            return []
+        for pth, what in cmp(ob, oa, dedupe(cs.tree), ()):
+            viol.append({"site": c15_class(pth, "diff"), "detail": "at %s: flag-on output differs from flag-off output other than by name -> pseudonym: %s" % ("/".join(str(x) for x in pth), what),
+                         "cfg": c1.s(), "cli_flags": c1.cli(), "input": cs.text, "output": ta, "output_off": tb})
+        # plan summary: every index key replaced by the pseudonym the filter uses
+        ps = get_path(cs.tree, ("attr", "planSummary"))
+        if isinstance(ps, str) and "IXSCAN" in ps:
+            got = get_path(oa, ("attr", "planSummary"))
+            exp = pyre.sub(r"(IXSCAN\s*\{)([^}]+)(\})", lambda m: m.group(1) + ",".join(
+                (lambda kv: kv[0].replace(kv[0].strip(), py_hash_name(c1.repl, kv[0].strip()), 1) + (":" + kv[1] if len(kv) > 1 else "") if kv[0].strip() else ":".join(kv))(f.split(":", 1))
+                for f in m.group(2).split(",")) + m.group(3), ps)
+            if got != exp:
+                viol.append({"site": "fn:planSummary", "detail": "plan summary %r -> %r, expected %r" % (ps, got, exp), "cfg": c1.s(), "cli_flags": c1.cli(), "input": cs.text, "output": ta})
+    return result(viol, 3 * len(pairs_on), names_checked, "grammar lines run with a --redactFieldNames path that prefixes attr.ns, without the flag, and with paths that do not prefix it; planted field names must be absent from the whole line; flag-on vs flag-off tree comparison (renamed keys = independent pseudonym, sibling count/order, values, '$field' references); plan summary against an independent rewrite; distinct_nontrivial = field names checked",
+                  dist, [pairs_on[0][0].text[:300]] if pairs_on else [])
+
+
+ORACLES["C15"] = oracle_c15
